@@ -94,6 +94,9 @@ def run(tier, seed):
         from props import grpccommon as g
         gb_cases = [{"name": "cs%d" % i, "mux": mux, "pair": "inproc", "tls": "", "launch": "cmd", "sequential": True, "ests": [], "fam": "close-during-send",
                      "close_during_send": d} for i, (mux, d) in enumerate([(False, "h2p"), (False, "p2h"), (True, "h2p"), (True, "p2h")])]
+        # (4b) shutdown while a dial waits for its peer (multiplexed: the knock is out, no acknowledgement yet)
+        gb_cases += [{"name": "cd%d" % i, "mux": mux, "pair": "inproc", "tls": "", "launch": "cmd", "sequential": True, "ests": [], "fam": "close-during-dial",
+                      "close_during_dial": d} for i, (mux, d) in enumerate([(True, "h2p"), (True, "p2h"), (False, "h2p"), (False, "p2h")] * (1 if tier == "quick" else 6))]
         # (5) the owner of a server stops it at the moment the host's shutdown request does
         gb_cases += [{"name": "sr%d" % i, "mux": i % 2 == 1, "pair": "inproc", "tls": "", "launch": "cmd", "sequential": True, "ests": [], "fam": "stop-race",
                       "stop_race": True} for i in range(4 if tier == "quick" else 24)]
@@ -111,7 +114,10 @@ def run(tier, seed):
     by_rc = {c_["name"]: c_ for c_ in rc_cases}
     by_gb = {c_["name"]: c_ for c_ in gb_cases}
     for name in vlib.hung_cases(obs_gb):
-        rep.violation("c20:hang:close-during-send", "shutdown during a held broker send never finished", {"case": by_gb[name]})
+        rep.violation("c20:hang:%s" % by_gb[name]["fam"], "shutdown racing with a broker operation (%s) never finished" % by_gb[name]["fam"], {"case": by_gb[name]})
+    for name, o in obs_gb.items():
+        if not o.get("hang") and (o.get("out") or {}).get("dial_never_returned"):
+            rep.violation("c20:stuck-dial", "a dial in flight when client and server were closed never returned: %s" % json.dumps(by_gb[name])[:300], {"case": by_gb[name]})
     for name, out in list(crashes_lc.items()) + list(crashes_rc.items()) + list(crashes_gb.items()):
         case = by_lc.get(name) or by_rc.get(name) or by_gb.get(name)
         kind = "double-close" if "close of closed channel" in out else "panic"
